@@ -171,3 +171,58 @@ func H_C10_builtin() {
 	}
 	vReach("end")
 }
+
+//verif:witness H_C10_sequence end
+//verif:bound C10 all two consecutive events through one sync logger with the hook pattern changing in between (each hook set/unset per event, 64 patterns), recycled Event objects (sync.Pool returns the event just put back): the second record carries exactly what its own hooks returned
+// H_C10_sequence: hooks change between two events; the pooled Event must not leak the first event's data.
+func H_C10_sequence() {
+	app := &vRecAppender{}
+	all := LevelRange{MinLevel: NoneLevel, MaxLevel: MaxLevel}
+	logger := &SyncLogger{LoggerBase: LoggerBase{Name: "l", Level: all}}
+	logger.AppenderRefs.AppenderRefs = []*AppenderRef{{Appender: app, Level: all}}
+	tag := &Tag{tag: "_t_x", logger: logger}
+	defer func() { TimeNow, StringFromContext, FieldsFromContext = nil, nil, nil }()
+	hookTime := [2]time.Time{time.Unix(1700000000, 0), time.Unix(1800000000, 0)}
+	var set [2][3]bool
+	for ev := 0; ev < 2; ev++ {
+		TimeNow, StringFromContext, FieldsFromContext = nil, nil, nil
+		set[ev] = [3]bool{vChoose("time", 2) == 1, vChoose("str", 2) == 1, vChoose("fields", 2) == 1}
+		k := ev
+		if set[ev][0] {
+			TimeNow = func(ctx context.Context) time.Time { return hookTime[k] }
+		}
+		if set[ev][1] {
+			StringFromContext = func(ctx context.Context) string { return [2]string{"first-ctx", "second-ctx"}[k] }
+		}
+		if set[ev][2] {
+			FieldsFromContext = func(ctx context.Context) []Field { return []Field{Int("ev", k)} }
+		}
+		if ev == 0 {
+			Info(vCtx, tag, Msg("one"), Int("a", 1))
+		} else {
+			Warn(vCtx, tag, Msg("two"))
+		}
+	}
+	vAssert(app.appends == 2, "both-events-emitted")
+	if app.appends == 2 {
+		for ev := 0; ev < 2; ev++ {
+			e := app.events[ev]
+			if set[ev][0] {
+				vAssert(e.Time == hookTime[ev], "record-carries-its-own-hook-time")
+			}
+			if set[ev][1] {
+				vAssert(e.CtxString == [2]string{"first-ctx", "second-ctx"}[ev], "record-carries-its-own-context-string")
+			} else {
+				vAssert(e.CtxString == "", "no-context-string-when-the-hook-is-unset")
+			}
+			if set[ev][2] {
+				vAssert(len(e.CtxFields) == 1 && e.CtxFields[0].Key == "ev", "record-carries-its-own-context-fields")
+			} else {
+				vAssert(len(e.CtxFields) == 0, "no-context-fields-when-the-hook-is-unset")
+			}
+		}
+		vAssert(len(app.events[0].Fields) == 2 && len(app.events[1].Fields) == 1, "record-carries-its-own-fields")
+		vAssert(app.events[0].Level.code == 300 && app.events[1].Level.code == 400, "record-carries-its-own-level")
+	}
+	vReach("end")
+}
